@@ -1004,7 +1004,7 @@ class Processor:
             try:
                 # Try using the ref as a bare Array index
                 idx = int(str_stripped)
-                if len(data) > idx:
+                if -len(data) <= idx < len(data):
                     self.logger.debug(
                         "Processor::_get_nodes_by_key:  FOUND key node as a"
                         " bare Array index at [{}]."
@@ -1111,14 +1111,16 @@ class Processor:
                         str(unstripped_attrs)
                     ) from wrap_ex
 
-                if intmin == intmax and len(data) > intmin:
+                if intmin == intmax and -len(data) <= intmin < len(data):
                     yield NodeCoords(
                         [data[intmin]], data, intmin,
                         translated_path + "[{}]".format(intmin),
                         ancestry + [(data, intmin)], pathseg)
                 else:
                     sliced_elements = []
-                    for slice_index in range(intmin, intmax):
+                    for slice_index in range(
+                        *slice(intmin, intmax).indices(len(data))
+                    ):
                         sliced_elements.append(NodeCoords(
                             data[slice_index], data, intmin,
                             translated_path + "[{}]".format(slice_index),
@@ -1156,7 +1158,7 @@ class Processor:
                     str(unstripped_attrs)
                 ) from wrap_ex
 
-            if isinstance(data, list) and len(data) > idx:
+            if isinstance(data, list) and -len(data) <= idx < len(data):
                 yield NodeCoords(
                     data[idx], data, idx, translated_path + "[{}]".format(idx),
                     ancestry + [(data, idx)], pathseg)
